@@ -656,6 +656,223 @@ def small_simple_universe(encoding):
 
 
 # ----------------------------------------------------------------------------------------------
+# Histories: ONE long-lived header object serving several different calls; every answer must be what a
+# brand-new, identically constructed object answers, and .parsed / str(h) / header_value must not move
+# ----------------------------------------------------------------------------------------------
+FAMILIES = ("accept", "charset", "encoding")
+
+
+def make_header(family, header):
+    from webob import acceptparse as ap
+    return {"accept": ap.create_accept_header, "charset": ap.create_accept_charset_header,
+            "encoding": ap.create_accept_encoding_header}[family](header)
+
+
+def snapshot(h):
+    import copy
+    return [type(h).__name__, copy.deepcopy(h.parsed), catch(lambda: str(h)), h.header_value, bool(h)]
+
+
+def do_call(family, h, call, shared):
+    """Perform one read-only call.  `shared` maps a list id to ONE Python list object reused across the calls
+    of a history (so that an in-place mutation of the caller's list is seen by the next call)."""
+    import warnings
+    name = call[0]
+    with warnings.catch_warnings():
+        warnings.simplefilter("ignore")
+        if name in ("acceptable_offers", "best_match"):
+            key = json.dumps(call[1])
+            if key not in shared:
+                shared[key] = [mk_offer(o) if family == "accept" else o for o in call[1]]
+            lst = shared[key]
+            before = list(lst)
+            if name == "acceptable_offers":
+                r = catch(lambda: canon_result(h.acceptable_offers(lst)))
+            else:
+                r = catch(lambda: h.best_match(lst))
+            if lst != before or any(a is not b for a, b in zip(lst, before)):
+                return ("offers-argument-mutated", r)
+            return (None, r)
+        if name == "accept_html":
+            return (None, catch(lambda: h.accept_html()))
+        if name == "accepts_html":
+            return (None, catch(lambda: h.accepts_html))
+        if name == "quality":
+            r = catch(lambda: h.quality(call[1]))
+            return (None, r if r is None or isinstance(r, Err) else q1000(r))
+        if name == "contains":
+            return (None, catch(lambda: call[1] in h))
+        if name == "iter":
+            return (None, catch(lambda: list(h)))
+        if name == "str":
+            return (None, catch(lambda: str(h)))
+        if name == "parsed":
+            return (None, catch(lambda: jsonable_parsed(h.parsed)))
+        if name == "copy":
+            return (None, catch(lambda: snapshot(h.copy())))
+    raise ValueError(call)
+
+
+def jsonable_parsed(p):
+    return None if p is None else [list(x) for x in p]
+
+
+def run_history(family, header, calls):
+    """-> (answers of the long-lived object, problem) ; problem = None or (key, message)"""
+    h = make_header(family, header)
+    snap0 = snapshot(h)
+    shared = {}
+    answers = []
+    for i, call in enumerate(calls):
+        mut, got = do_call(family, h, call, shared)
+        fresh = make_header(family, header)
+        _, want = do_call(family, fresh, call, {})
+        answers.append(got)
+        where = "%s %r, call #%d %r after %r" % (type(h).__name__, header, i, call, calls[:i])
+        if mut:
+            return answers, (family + ":stateful:offers-argument-mutated", where + ": the caller's offers list was modified in place")
+        if got != want:
+            return answers, (family + ":stateful:answer-differs-from-fresh",
+                             where + ": the long-lived object answered %r, a fresh object answers %r" % (got, want))
+        snap = snapshot(h)
+        if snap != snap0:
+            return answers, (family + ":stateful:object-changed-by-read",
+                             where + ": (type, parsed, str, header_value, bool) went from %r to %r" % (snap0, snap))
+    return answers, None
+
+
+def gen_history(rng, family, maxcalls=7):
+    """-> (header, structure-or-None, calls)"""
+    if family == "accept":
+        header, ranges, offers0 = gen_accept_case(rng)
+        struct = ranges
+        mode = rng.random()
+        if mode < 0.12:
+            header, struct = None, None
+        elif mode < 0.25:
+            header, struct = rng.choice(["text/html;", "text", "a/b;q=2", header + ";", "\x00"]), None
+        pool_offers = [gen_offers(rng, gen_media_pool(rng), ranges) for _ in range(3)] + [offers0, list(HTMLS), []]
+        stroffers = [o for l in pool_offers for o in l if isinstance(o, str)] or ["text/html"]
+    else:
+        enc = family == "encoding"
+        header, entries, offers0 = gen_simple_case(rng, enc)
+        struct = entries
+        mode = rng.random()
+        if mode < 0.12:
+            header, struct = None, None
+        elif mode < 0.25:
+            header, struct = rng.choice(["utf-8;q=2", "a b", header + ";q", "\x00", "gzip;;"]), None
+        pool_offers = [gen_simple_case(rng, enc)[2] for _ in range(3)] + [offers0, list(reversed(offers0)), []]
+        pool_offers = [[o for o in l if all(ord(c) < 256 for c in o)] for l in pool_offers]
+        stroffers = [o for l in pool_offers for o in l] or ["x"]
+    calls = []
+    for _ in range(rng.randrange(3, maxcalls + 1)):
+        r = rng.random()
+        if r < 0.5:
+            calls.append(["acceptable_offers", rng.choice(pool_offers)])
+        elif r < 0.6 and family == "accept":
+            calls.append([rng.choice(["accept_html", "accepts_html"])])
+        elif r < 0.7:
+            l = [o for o in rng.choice(pool_offers) if isinstance(o, str)]
+            calls.append(["best_match", l])
+        elif r < 0.78:
+            calls.append(["quality", rng.choice(stroffers)])
+        elif r < 0.86:
+            calls.append(["contains", rng.choice(stroffers)])
+        elif r < 0.9:
+            calls.append(["iter"])
+        elif r < 0.94:
+            calls.append(["str"])
+        elif r < 0.97:
+            calls.append(["parsed"])
+        else:
+            calls.append(["copy"])
+    return header, struct, calls
+
+
+def jcase_history(family, header, struct, calls):
+    return {"kind": "history", "family": family, "header": header, "calls": calls,
+            "structure": None if struct is None else jsonable_struct(struct)}
+
+
+def jsonable_struct(struct):
+    return [[list(y) if isinstance(y, (list, tuple)) and not isinstance(y, str) else y for y in x] for x in struct]
+
+
+def fix_offers(l):
+    return [tuple(o) if isinstance(o, list) else o for o in l]
+
+
+def fix_calls(calls):
+    return [[c[0]] + ([fix_offers(c[1])] if c[0] in ("acceptable_offers", "best_match") else list(c[1:])) for c in calls]
+
+
+def oracle_history(family, header, struct, calls):
+    """One long-lived object vs fresh objects, and (valid header with known structure) vs the reference negotiator."""
+    answers, problem = run_history(family, header, calls)
+    if problem:
+        return problem
+    if struct is not None:
+        for call, got in zip(calls, answers):
+            if call[0] == "acceptable_offers":
+                if family == "accept":
+                    ranges = [(t, st, [tuple(p) for p in ps], q) for t, st, ps, q in struct]
+                    want = [[canon_ref_offer(o), q] for o, q in ref_accept(ranges, call[1])]
+                else:
+                    want = ref_simple([tuple(e) for e in struct], call[1], family == "encoding")
+                if got != want:
+                    return (family + ":stateful:answer-differs-from-reference",
+                            "%s header %r call %r in history %r gave %r, the property says %r"
+                            % (family, header, call, calls, got, want))
+    return None
+
+
+def eval_plain(c):
+    family, header, offers = c
+    h = make_header(family, header)
+    return catch(lambda: canon_result(h.acceptable_offers([mk_offer(o) if family == "accept" else o for o in offers])))
+
+
+def eval_in_fresh_process(cases, order):
+    """Evaluate cases[i] for i in `order` in a brand-new interpreter (module-level state reset); -> {i: answer}."""
+    import os
+    import subprocess
+    import sys
+    code = ("import json,sys\nfrom harness.props import c04\nd=json.load(sys.stdin)\n"
+            "out={}\nfor i in d['order']:\n    f,h,o=d['cases'][i]\n    out[i]=c04.jsonable_answer(c04.eval_plain((f,h,c04.fix_offers(o))))\n"
+            "json.dump(out,sys.stdout)\n")
+    payload = json.dumps({"order": list(order),
+                          "cases": [[f, h, [list(o) if isinstance(o, tuple) else o for o in of]] for f, h, of in cases]})
+    p = subprocess.run([sys.executable, "-B", "-W", "ignore", "-c", code], input=payload, capture_output=True, text=True,
+                       cwd=fw.ROOT, env=dict(os.environ))
+    if p.returncode != 0:
+        raise RuntimeError("fresh-process evaluation failed: " + p.stderr[-500:])
+    return {int(k): v for k, v in json.loads(p.stdout).items()}
+
+
+def jsonable_answer(a):
+    return json.loads(json.dumps(fw.jsonable(a)))
+
+
+def oracle_order_independence(cases):
+    """Module-level state: the same (family, header, offers) inputs must be answered alike whatever was evaluated before
+    them: forward order in this process, reverse order in this process, and reverse order in a brand-new interpreter
+    (a persistent process-wide cache filled by the forward pass would otherwise hide itself).
+    -> None or (index, message)"""
+    first = [jsonable_answer(eval_plain(c)) for c in cases]
+    for i in reversed(range(len(cases))):
+        again = jsonable_answer(eval_plain(cases[i]))
+        if again != first[i]:
+            return (i, "inputs %r answered %r in forward order and %r when re-evaluated in reverse order" % (cases[i], first[i], again))
+    other = eval_in_fresh_process(cases, list(reversed(range(len(cases)))))
+    for i, c in enumerate(cases):
+        if other[i] != first[i]:
+            return (i, "inputs %r answered %r after the calls before them in this process, but %r in a new process where they "
+                       "were evaluated in the opposite order" % (c, first[i], other[i]))
+    return None
+
+
+# ----------------------------------------------------------------------------------------------
 # Regenerated obligations: character classes and the HTML offer lists, read from the live source
 # ----------------------------------------------------------------------------------------------
 def gen_text():
@@ -731,6 +948,11 @@ def run_case_oracle(case):
     if k == "nohdr":
         offers = [tuple(o) if isinstance(o, list) else o for o in case["offers"]]
         return oracle_nohdr(k, case["header"], offers)
+    if k == "history":
+        return oracle_history(case["family"], case["header"], case.get("structure"), fix_calls(case["calls"]))
+    if k == "order":
+        res = oracle_order_independence([(f, h, fix_offers(o)) for f, h, o in case["cases"]])
+        return ("module-state:order-dependence", res[1]) if res else None
     return None
 
 
@@ -820,8 +1042,65 @@ def run(ctx):
         bad = ctx.corr(name, IMPORTS, "(fun c => %s (fst c) (snd c))" % fn, cases, in_type="(list (str * N) * list str)")
         corr_followup(ctx, name, cases, bad)
 
+    # histories: the answers of ONE long-lived valid header object to several acceptable_offers calls must be what the
+    # (pure) model answers to each call separately
+    for family, fn, ity in (("accept", "c04_accept", "(list raw_range * list (list offer))"),
+                            ("charset", "c04_charset", "(list (str * N) * list (list str))"),
+                            ("encoding", "c04_encoding", "(list (str * N) * list (list str))")):
+        cases = []
+        for _ in range(ctx.scale(150, 1500)):
+            header, struct, calls = gen_history(rng, family)
+            calls = [c for c in calls if c[0] == "acceptable_offers"]
+            h = make_header(family, header)
+            if struct is None or h.parsed is None or not calls:
+                continue
+            shared = {}
+            outs = [do_call(family, h, c, shared)[1] for c in calls]
+            j = jcase_history(family, header, struct, calls)
+            if family == "accept":
+                lit = cpair(craw_ranges(h.parsed), clist(clist(coffer(o) for o in c[1]) for c in calls))
+            else:
+                lit = cpair(csimple(h.parsed), clist(clist(cstr(o) for o in c[1]) for c in calls))
+            cases.append((lit, outs, j))
+        bad = ctx.corr(family + "_history", IMPORTS, "(fun c => VList (map (%s (fst c)) (snd c)))" % fn, cases, in_type=ity)
+        corr_followup(ctx, family + "_history", cases, bad)
+
     # ------------------------------------------------------------------ oracle
     r2 = ctx.sub_rng("oracle")
+    r3 = ctx.sub_rng("oracle-history")
+    for family in FAMILIES:
+        cnt = 0
+        for _ in range(ctx.scale(2500, 40000)):
+            header, struct, calls = gen_history(r3, family, maxcalls=ctx.scale(7, 12))
+            report(ctx, oracle_history(family, header, struct, calls), jcase_history(family, header, struct, calls),
+                   family + "-history")
+            cnt += 1
+        ctx.oracle_count(family + "-history", cnt, cnt)
+    # one batch re-uses headers with several different offer lists of the SAME length (permutations, case variants) and
+    # of different lengths, so that a process-wide cache keyed on too little gives itself away
+    batch = []
+    for _ in range(ctx.scale(120, 1500)):
+        family = r3.choice(FAMILIES)
+        if family == "accept":
+            header, _, offers = gen_accept_case(r3)
+            alt = gen_offers(r3, gen_media_pool(r3), [])
+        else:
+            header, _, offers = gen_simple_case(r3, family == "encoding")
+            alt = gen_simple_case(r3, family == "encoding")[2]
+        variants = [offers, list(reversed(offers)), offers[1:] + offers[:1], (alt * len(offers))[:len(offers)], alt,
+                    [o.swapcase() if isinstance(o, str) else o for o in offers]]
+        for v in variants:
+            batch.append((family, header, v))
+    r3.shuffle(batch)
+    res = oracle_order_independence(batch)
+    if res:
+        f0, h0, _ = batch[res[0]]
+        small = [c for c in batch if c[0] == f0 and c[1] == h0]
+        jb = {"kind": "order", "cases": [[f, h, [list(o) if isinstance(o, tuple) else o for o in of]] for f, h, of in
+                                           (small if oracle_order_independence(small) else batch)]}
+        ctx.fail("module-state:order-dependence", res[1], jb, True, "order-independence")
+    cnt = len(batch)
+    ctx.oracle_count("order-independence", cnt, cnt)
     m = ctx.scale(6000, 120000)
     nt = 0
     for i in range(m):
@@ -887,6 +1166,10 @@ def run(ctx):
                {"kind": "nohdr", "header": header, "offers": [list(o) if isinstance(o, tuple) else o for o in offers]}, "accept-nohdr")
         cnt += 1
     ctx.oracle_count("accept-nohdr", cnt, cnt)
+
+    # self-contained histories first: a failure that depends on earlier calls in this process does not reproduce from
+    # a single-call replay file, a history / order case does
+    ctx.violations.sort(key=lambda v: 0 if ("stateful" in v["key"] or "module-state" in v["key"]) else 1)
 
     ctx.extra["rule"] = (
         "correspondence: headers rendered from random structures (repeated/overlapping ranges, q=0, parameters in both "
